@@ -373,6 +373,80 @@ class Lifecycle(core.Scenario):
                 'scenario': report.dumps(self.params, sort_keys=True)}
 
 
+
+class Reconnect(Lifecycle):
+    """The application reconnects the same client object 3 s after its disconnect event has fired (before the timers of
+    the old connection have run out): the second connection is a connection of its own - nothing left over from the first one
+    may end it, and it lasts until the (silent) server exceeds the client's read timeout."""
+    def build(self):
+        Lifecycle.build(self)
+        self.t2 = None
+        self.c2 = None
+
+        def en_r(s):
+            return s.c2 is None and s.conn.done and not s.conn.exc and s.world.client.state == 'disconnected' and \
+                any(e[0] == 'disconnect' for e in s.world.events)
+
+        def fire_r(s):
+            s.n1 = len(s.world.events)
+            s.c2 = s.world.call('connect', URL, transports=['polling'])
+
+        def en_o(s):
+            return s.c2 is not None and s.t2 is None and any('sid=' not in r.url for r in s.world.server.pending_reqs('GET'))
+
+        def fire_o(s):
+            pr = [r for r in s.world.server.pending_reqs('GET') if 'sid=' not in r.url][0]
+            s.world.answer(pr, 200, '0' + json.dumps(dict(OPEN, sid='S2')))
+            s.t2 = s.world.now
+        # (3 s later, so that timers of the first connection and of the second cannot coincide)
+        self.scripts.append([core.Action('app:reconnect', fire_r, en_r, 3.0), core.Action('GET<-open2', fire_o, en_o)])
+
+    def finish(self):
+        w = self.world
+        trig = 'reconnect_at_once'
+        if self.c2 is None:
+            return          # the first connection never ended with an event (judged by the main scenarios)
+        ev1, ev2 = list(w.events[:self.n1]), list(w.events[self.n1:])
+        if [e[0] for e in ev1].count('disconnect') != 1:
+            self.flag('disconnect_count', 'first connection: events %r' % [e[:2] for e in ev1], trigger=trig)
+        if not self.c2.done or self.c2.exc or self.t2 is None:
+            self.flag('not_reusable', 'second connect(): done=%s exc=%r' % (self.c2.done, self.c2.exc), trigger=trig)
+            return
+        kinds = [e[0] for e in ev2]
+        # max(pingInterval, pingTimeout) + 5 s is the client's read / idle timeout on polling
+        limit = self.t2 + 1.0 + 5.0
+        if kinds[:1] != ['connect'] or ev2[0][1].get('sid') != 'S2':
+            self.flag('not_reusable', 'second connection: events %r' % [e[:2] for e in ev2], trigger=trig)
+        early = [e for e in ev2[1:] if e[0] == 'disconnect' and e[2] < limit - 1e-9]
+        if early:
+            self.flag('second_connection_killed', 'the second connection (established at t=%.3f, server silent, read timeout at %.3f) '
+                      'was ended at t=%.3f with %r by leftovers of the first' % (self.t2, limit, early[0][2], early[0][1]), trigger=trig)
+        if kinds.count('disconnect') != 1:
+            self.flag('disconnect_count', 'second connection: events %r' % [e[:3] for e in ev2], trigger=trig)
+        stale = [(r.method, r.body) for r in w.server.reqs if r.method == 'POST' and 'sid=S2' in r.url]
+        if stale:
+            self.flag('stale_traffic_after_reconnect', 'the second connection POSTed %r although the application sent nothing' % (stale,), trigger=trig)
+
+    def observation(self):
+        w = self.world
+        return {'events': [(e[0], e[1] if e[0] != 'connect' else e[1].get('sid'), e[2]) for e in w.events],
+                'scenario': report.dumps(self.params, sort_keys=True)}
+
+
+def reconnect_params():
+    ps = []
+    for impl in ('sync', 'async'):
+        for seq in (['close'], ['msg', 'close'], ['s400'], ['err'], ['garbage'], ['ping', 'close']):
+            ps.append({'impl': impl, 'transports': ['polling'], 'connect': 'open', 'polls': seq})
+        for seq in (['msg'], ['ping']):
+            ps.append({'impl': impl, 'transports': ['polling'], 'connect': 'open', 'polls': seq, 'app': ['disconnect']})
+            ps.append({'impl': impl, 'transports': ['polling'], 'connect': 'open', 'polls': seq, 'app': ['send', 'disconnect']})
+        for seq in (['close'], ['s400'], ['msg', 'close']):
+            ps.append({'impl': impl, 'transports': ['websocket'], 'connect': '-', 'ws': ['accept', 'open'], 'polls': seq})
+        ps.append({'impl': impl, 'transports': ['websocket'], 'connect': '-', 'ws': ['accept', 'open'], 'polls': ['msg'], 'app': ['disconnect']})
+        ps.append({'impl': impl, 'transports': None, 'connect': 'open_up', 'ws': ['accept', 'probe_ok'], 'polls': ['close']})
+    return ps
+
 def scenario_class(p):
     eff = p.get('effects') or {}
     if eff:
@@ -462,6 +536,12 @@ def run(ctx):
         params = [dict(q, _free_switch=True) for q in params]
         bound = 1       # with free switching one deviation already covers what two did under the charged model
     st, viols, samples, gate = core.run_search(Lifecycle, params, bound, ctx.workers, ctx.seed)
+    rps = reconnect_params()
+    st_r, viols_r, _, _ = core.run_search(Reconnect, rps, bound, ctx.workers, ctx.seed)
+    st.merge(st_r)
+    for v in viols_r:
+        v['params'] = dict(v['params'], _reconnect=True)
+    viols += viols_r
     for v in viols:
         pr = v['params']
         rep.add(report.Violation(
@@ -476,7 +556,7 @@ def run(ctx):
         'rule': 'server behaviours: %d connect answers; every poll-answer sequence of length <= %d over %r; POST answers %r; '
                 'WebSocket connect/first-frame behaviours; probe behaviours; application scripts (send / disconnect / both / twice) '
                 'and handler-initiated disconnects as a parallel script; x {Client, AsyncClient}; all interleavings at quiescence '
-                'and <= %d deviation(s); epilogue with wait(), no-op calls and a second connect(). states = distinct (scenario, '
+                'and <= %d deviation(s); epilogue with wait(), no-op calls and a second connect(); plus early-reconnect scenarios (the application calls connect() again 3 s after the disconnect event, before the timers of the old connection have run out; the second connection, left in silence, must last until its own read timeout). states = distinct (scenario, '
                 'event log, outcome) digests.' % (len(CONNECT_FAIL + CONNECT_OK) + 1, 2 if ctx.quick else 3, POLL_MENU, POST_MENU, bound),
         'exhaustive': True, 'bound_completed': bound, 'caps_hit': st.caps, 'scenarios': len(params),
         'executions_by_deviations': {str(k): v for k, v in sorted(st.by_dev.items())},
@@ -492,7 +572,8 @@ def run(ctx):
 
 def replay(ctx, payload):
     r = report.unbytes(payload['replay'])
-    ex = core.execute(Lifecycle, r['params'], r['choices'], want_labels=True)
+    cls = Reconnect if r['params'].pop('_reconnect', False) else Lifecycle
+    ex = core.execute(cls, r['params'], r['choices'], want_labels=True)
     for lab in ex.labels:
         print('  ', lab)
     print('observation:', ex.obs)
